@@ -8,7 +8,7 @@ KEYS['worker_c14'] = {'pkg': 'lib/dispatchcloud/worker'}
 
 _units = [
     unit('pool', 'worker_c14', '^TestVerifC14bPool$',
-         {'shards': 4, 'checks': 400, 'steps': 40},
+         {'shards': 6, 'checks': 500, 'steps': 40},
          {'shards': 16, 'checks': 8000, 'steps': 60, 'timeout': 1500}),
     unit('e2e', 'dispatchcloud_c14', '^TestVerifC14E2E$',
          {'shards': 10, 'timeout': 400, 'env': {'VERIF_SCENARIOS': 2, 'VERIF_MAXN': 120}},
